@@ -1,0 +1,33 @@
+//go:build verif
+
+package shiftdfa
+
+// Contracts for the deductive verifier under /verif (comment-only; build tag verif).
+
+// Scan: every table access is in range for ANY table contents; the reported size is a position of
+// the input, and a token is only reported from a row whose accept bit is set or from onEoi.
+//@ func Scanner.Scan
+//@   mode bv
+//@   ensures 0 <= size && size <= len(input)
+//@   ensures size < len(input) ==> token < 32
+//@   loop 1:
+//@     invariant 0 <= i && i <= len(input)
+//@     invariant i == 0 ==> state == 0
+
+// Pack: no table access can go out of range for tables of the shape lex.Compile produces
+// (lex.wfTables). Bit operations are uninterpreted in this mode: the contract is about safety only.
+//@ func Pack
+//@   requires t != nil && wfTables(t) && len(t.Dfa) % t.NumSymbols == 0
+//@   ensures result1 == nil ==> result0 != nil
+//@   loop 1:
+//@     invariant 0 <= e && e < len(t.SymbolMap) && len(symBytes) == t.NumSymbols && i <= 128
+//@     invariant fresh(symBytes) && forall k in 0..len(symBytes) :: fresh(symBytes[k])
+//@   loop 2:
+//@     invariant 0 <= state && state <= states && states * t.NumSymbols == len(t.Dfa) && states <= 11 && len(symBytes) == t.NumSymbols
+//@   loop 3:
+//@     invariant 0 <= sym && sym <= t.NumSymbols && offset == state * t.NumSymbols && 0 <= state && state < states
+//@     invariant states * t.NumSymbols == len(t.Dfa) && states <= 11 && len(symBytes) == t.NumSymbols
+//@   loop 4:
+//@     invariant 0 <= @i && @i <= len(symBytes[sym])
+//@   loop 5:
+//@     invariant 128 <= b && b <= 256
